@@ -8,15 +8,18 @@ the .scores of a FRESH attack (no convergence step, default batch size) run by t
 processed up to that point; the last column with the final .scores; final .results/.scores with those of the same
 attack without convergence_step.
 """
+import os
 import random
 import warnings
 
-import numpy as np
+os.environ.setdefault('NUMBA_NUM_THREADS', '1')   # see props/C02.py: parallel numba kernels on tiny sets only contend
 
-from lib.kinds import Kind
-from lib import core
-from translate import common as C
-from props import C02 as base
+import numpy as np  # noqa: E402
+
+from lib.kinds import Kind  # noqa: E402
+from lib import core  # noqa: E402
+from translate import common as C  # noqa: E402
+from props import C02 as base  # noqa: E402
 
 ID = 'C08'
 TRANSLATORS = []
@@ -56,7 +59,8 @@ def master(data_seed, cls):
 def config(case):
     """The C02-style description of the analysis of a case (selection function, model, class set, bins)."""
     cls = case['cls']
-    c = {'cls': cls, 'guesses': [0, 5, 10], 'disc': case['disc'], 'prec': case['prec'], 'partitions': None, 'bin_edges': None}
+    c = {'cls': cls, 'guesses': [0, 5, 10][:case.get('G', 3)], 'disc': case['disc'], 'prec': case['prec'], 'partitions': None,
+         'bin_edges': None}
     c['model'] = ['monobit', 1] if cls == 'DPA' else ['hw']
     if cls in base.PARTITIONED:
         c['partitions'] = list(range(5))
@@ -65,9 +69,9 @@ def config(case):
     return c
 
 
-def ths_of(samples, pt, dtype='uint8'):
+def ths_of(samples, pt, width=L, dtype='uint8'):
     import estraces
-    return estraces.read_ths_from_ram(samples=np.array(samples, dtype=dtype).reshape(len(samples), L),
+    return estraces.read_ths_from_ram(samples=np.array(samples, dtype=dtype).reshape(len(samples), L)[:, :width],
                                       plaintext=np.array(pt, dtype='uint8').reshape(len(pt), 1))
 
 
@@ -77,7 +81,7 @@ class ConvKind(Kind):
     case_type = 'c08_case'
     check_fn = 'c08_check'
     explain_fn = 'c08_explain'
-    shard = 80
+    shard = 120
     rule = ('scared.<X>Attack(convergence_step=k).run(Container) 1-3 times under set_batch_size(bs): exhaustive small scope '
             '(quick: sub-grid of N<=30 x bs<=12 u {40} x step<=32 u {50} for CPA, every attack class on a smaller sub-grid; thorough: the '
             'full grid for CPA, a larger sub-grid for every class), random sequences of 1-3 runs with different batch sizes; step smaller / '
@@ -91,30 +95,45 @@ class ConvKind(Kind):
         thorough = tier != 'quick'
 
         def mk(cls, step, runs, seed=0):
+            # quick: 2 guesses x 2 samples (small Coq literals: elaborating them is what the coqc shards spend their time on)
             return {'cls': cls, 'step': step, 'runs': [list(r) for r in runs], 'data_seed': seed,
+                    'G': 3 if thorough else 2, 'W': L if thorough else 2,
                     'disc': rng.choice(list(base.DISCS)), 'prec': rng.choice(['float32', 'float64']) if cls in ('CPA', 'DPA') else 'float64'}
         if thorough:
-            ns, bss, steps = range(1, 31), list(range(1, 13)) + [40], list(range(1, 33)) + [50]
+            for n in range(1, 31):
+                for bs in list(range(1, 13)) + [40]:
+                    for st in list(range(1, 33)) + [50]:
+                        yield mk('CPA', st, [(n, bs)])
         else:
-            ns = [1, 2, 3, 5, 7, 8, 12, 13, 24, 30]
-            bss = [1, 2, 3, 4, 5, 7, 8, 12, 40]
-            steps = [1, 2, 3, 4, 5, 6, 7, 8, 10, 12, 13, 16, 25, 32, 50]
-        for n in ns:
-            for bs in bss:
-                for st in steps:
-                    yield mk('CPA', st, [(n, bs)])
-        # every attack class on a smaller sub-grid
+            # boundary block (deterministic): for each batch size, N < bs, N = bs, N = bs + 1 and 2 bs + 1 (N mod bs = 1),
+            # N = 3 bs, N = 29, 30; steps below / equal / above bs, dividing / not dividing N, equal to and above N
+            seen = set()
+            for bs in (1, 2, 3, 4, 5, 7, 12, 40):
+                for n in sorted({1, bs - 1, bs, bs + 1, 2 * bs + 1, 3 * bs, 29, 30}):
+                    if not 1 <= n <= 30:
+                        continue
+                    for st in sorted({1, bs - 1, bs, bs + 1, 2 * bs, n - 1, n, n + 1, 7, 50}):
+                        if 1 <= st <= 50 and (n, bs, st) not in seen:
+                            seen.add((n, bs, st))
+                            yield mk('CPA', st, [(n, bs)])
+            # a sample of the full grid, drawn from the seed
+            for _ in range(330):
+                yield mk('CPA', rng.choice(list(range(1, 33)) + [50]), [(rng.randint(1, 30), rng.choice(list(range(1, 13)) + [40]))])
+        # every attack class on a smaller sub-grid (step <, =, > bs; step > N; step not dividing N; N mod bs = 1)
         if thorough:
             ns2, bss2, steps2 = [1, 2, 4, 7, 9, 13, 20], [1, 2, 3, 5, 8, 40], [1, 2, 3, 4, 5, 8, 13, 50]
         else:
-            ns2, bss2, steps2 = [1, 4, 7, 13], [1, 3, 5, 40], [1, 2, 3, 5, 8, 50]
+            ns2, bss2, steps2 = [1, 4, 7, 13], [1, 3, 5, 40], [1, 3, 5, 50]
         for cls in ATTACKS[1:]:
             for n in ns2:
                 for bs in bss2:
                     for st in steps2:
                         yield mk(cls, st, [(n, bs)], seed=1)
+            if not thorough:
+                for _ in range(12):
+                    yield mk(cls, rng.choice([2, 4, 6, 8, 9, 16, 25]), [(rng.randint(1, 30), rng.choice([1, 2, 4, 7, 12]))], seed=1)
         # 1-3 successive runs, batch size changing between runs
-        nseq = 300 if not thorough else 4000
+        nseq = 220 if not thorough else 4000
         for _ in range(nseq):
             cls = rng.choice(ATTACKS)
             k = rng.choice([2, 2, 3])
@@ -125,12 +144,12 @@ class ConvKind(Kind):
     def prefix_scores(self, case, p):
         import scared
         cfg = config(case)
-        key = (case['cls'], case['disc'], case['prec'], case['data_seed'], p)
+        key = (case['cls'], case['disc'], case['prec'], case['data_seed'], case.get('G', 3), case.get('W', L), p)
         if key not in self._prefix:
             samples, pt = master(case['data_seed'], case['cls'])
             scared.set_batch_size(None)
             a = base.analysis_class(cfg)(**base.analysis_kwargs(cfg))
-            a.run(scared.Container(ths_of(samples[:p], pt[:p])))
+            a.run(scared.Container(ths_of(samples[:p], pt[:p], case.get('W', L))))
             self._prefix[key] = base.flt(a.scores)
         return self._prefix[key]
 
@@ -158,8 +177,8 @@ class ConvKind(Kind):
                 ncols = []
                 for n, bs in case['runs']:
                     scared.set_batch_size(int(bs))
-                    a.run(scared.Container(ths_of(samples[start:start + n], pt[start:start + n])))
-                    plain.run(scared.Container(ths_of(samples[start:start + n], pt[start:start + n])))
+                    a.run(scared.Container(ths_of(samples[start:start + n], pt[start:start + n], case.get('W', L))))
+                    plain.run(scared.Container(ths_of(samples[start:start + n], pt[start:start + n], case.get('W', L))))
                     start += n
                     ct = a.convergence_traces
                     ncols.append(0 if ct is None else int(ct.shape[-1]))
